@@ -260,3 +260,18 @@ def sequenced_before(fn, a, b):
     if k == "ConditionalOperator":
         return True if ia == 0 else (False if ib == 0 else None)
     return None
+
+
+def must_pass_through(fn, start_node, target_pred, via_pred):
+    """True when every CFG path of `fn` from the call `start_node` to a call satisfying target_pred passes a call satisfying via_pred
+    (and the target is reachable at all). Predicates take the call node."""
+    from .facts import is_call
+    calls = {c["i"]: c for c in fn.walk() if is_call(c)}
+    tgt = lambda b, i, e: e in calls and target_pred(calls[e])
+    via = lambda b, i, e: e in calls and via_pred(calls[e])
+    pos = fn.cfg.position(start_node)
+    if not pos:
+        return None
+    if fn.cfg.find_path(pos, tgt, lambda b, i, e: False) is None:
+        return None
+    return fn.cfg.find_path(pos, tgt, via) is None
